@@ -200,7 +200,8 @@ def oracle(inp, impl):
         return fails
     out = impl[1]
     if valid and cannot:
-        fails.append((f"gate {cannot[0]} cannot be expressed in the basis but is not refused", [g[0] for g in out], "an error"))
+        fails.append(("a gate that cannot be expressed in the basis is passed through instead of refused",
+                      dict(gate=cannot[0], output=[g[0] for g in out]), "an error"))
     # unitary, global phase included
     if all(_known_for_unitary(g[0]) for g in inp["gates"]) and all(_known_for_unitary(g[0]) for g in out):
         try:
@@ -525,7 +526,8 @@ def correspond(ctx):
 
 def obligations(ctx):
     # generated symbolic obligations: (gate kind x basis configuration) semantic checks + in-basis checks
-    return 20 * 512 + 20 * 92
+    # 512 configurations x 20 kinds (semantic), 92 valid configurations x 20 kinds (membership, success), 20 rule checks
+    return 20 * 512 + 2 * 20 * 92 + 20
 
 
 def classify(f):
@@ -533,6 +535,9 @@ def classify(f):
     what = f.get("what", "")
     b = inp.get("basis")
     bad = f.get("observed")
+    if isinstance(b, list) and "IDLE" in b and not any(x in ROT for x in b) and isinstance(bad, str) \
+            and what == "a circuit of resolvable gates in a valid basis is rejected" and bad.startswith("ValueError: Not sufficient"):
+        return "idle-counted-as-rotation"
     if isinstance(b, list) and what == "output contains gates outside the requested basis" and isinstance(bad, list):
         rots = set(x for x in b if x in ROT)
         if "IDLE" in b and len(rots) == 2 and set(bad) <= set(ROT) - rots:
